@@ -1009,3 +1009,10 @@ PROPS["C13"]["does_not_cover"] = [x.replace(" and the first-record-id read of op
 UNIT_META["iter_merge"]["functions"] = UNIT_META["iter_merge"]["functions"] + ["btree::iter::BTreeIterator::iter_inner (fragment: from the release of the commit-overlay guard to the merge step -- use of the parked lookahead)"]
 UNIT_META["iter_merge"]["assumes"] = UNIT_META["iter_merge"]["assumes"] + ["`pending_backend.take().and_then(|pending| ..)` (a closure) becomes the contract take_pending_for (literal shape rewrite); BTreeIterator::next_backend is a contract here (a step on the tree as of the record: unit iter_reposition)"]
 PROPS["C04"]["claim"] = PROPS["C04"]["claim"] + " Parked lookahead (Verus, fragment of iter_inner): the item fetched from the tree but not returned yet is the backend candidate of the next step only if no record was logged since it was fetched and the step goes in the same direction; otherwise the candidate is fetched afresh on the current tree; either way the parked item is consumed."
+
+# ---------------------------------------------------------------- U65 (Verus: reader side of the packed-node format, unbounded, and the round trip with the writer side)
+UNIT_META["node_codec"] = {"functions": ["column::unpack_node_data", "column::unpack_node_children", "round-trip lemma packed -> unpacked (over the format U60 proves of claim_node)"],
+                           "assumes": ["`u64::from_le_bytes(data[a..b].try_into().unwrap())` and `data.split_at(n).0.to_vec()` become contracts that require the range to be inside the vector (and 8 bytes long): a panic in the real code, proved unreachable (shape rewrites keep the index expressions verbatim)",
+                                       "u64::to_le_bytes / from_le_bytes are inverse and 8 bytes long (two axioms over uninterpreted functions)"]}
+PROPS["C10"]["verus_units"] = list(PROPS["C10"].get("verus_units", [])) + ["node_codec"]
+PROPS["C10"]["claim"] = PROPS["C10"]["claim"] + " Reader side, unbounded (Verus; replaces the bounded harnesses of U11 as the deciding check): for EVERY byte string unpack_node_data / unpack_node_children either reject it (exactly when it is empty or shorter than its count byte demands) or return the prefix before the child bytes and the child address words in order, with no out-of-range slice and no overflow; and a node packed as data ++ address bytes ++ count -- the format claim_node is proved to write -- is decoded to exactly that data and those addresses, for any data and any list of at most 255 children (round-trip lemma)."
